@@ -103,7 +103,7 @@ def run_verus(unit, cfg, text, scratch, rlimit=None, seed=None, extra=None):
     if rlimit:
         cmd += ["--rlimit", str(rlimit)]
     if seed is not None:
-        cmd += ["-V", "smt-option=smt.random_seed=%d" % (seed % 100000)]
+        cmd += ["--smt-option", "smt.random_seed=%d" % (seed % 100000)]
     if extra:
         cmd += extra
     r.cmd = " ".join(cmd[:1] + ["<generated %s>" % os.path.basename(fn)] + cmd[2:])
@@ -262,7 +262,8 @@ def run_kani(unit, cfg, text, scratch, jobs=8, only=None, playback=False):
         f.write("[net]\noffline = true\n")
     with open(os.path.join(d, "lib.rs"), "w") as f:
         f.write(text)
-    harnesses = dict(unit.harnesses)
+    hc = getattr(unit, "harness_cfgs", {})
+    harnesses = {h: v for h, v in unit.harnesses.items() if (h not in hc or cfg in hc[h])}
     for h, (props, name, note) in harnesses.items():
         if only and h not in only:
             continue
@@ -403,6 +404,8 @@ def run_unit(mod, scratch, tier, seed, jobs):
             if tier == "thorough" and not r.undecided:
                 # stability: different z3 seed, halved rlimit
                 r2 = run_verus(u, cfg, text, scratch, rlimit=max(5, (getattr(mod, "RLIMIT", None) or 10) // 2), seed=seed + 17)
+                if not r2.canary_ok and not r2.undecided:
+                    r2.undecided = "canary did not fail in the stability run"
                 r.stability = {"seed": seed + 17, "failed": sorted(f["id"] for f in r2.failed), "undecided": r2.undecided,
                                "agrees": (sorted(f["id"] for f in r2.failed) == sorted(f["id"] for f in r.failed)) and not r2.undecided}
         else:
